@@ -36,6 +36,14 @@ def check(run, views, tier):
         nl = c04.r_linear(run, F)
         run.floor("R-LINEAR", nl, 6, "drop sites of value-holding places in the state machine")
         rr.r_stop_onlyexit(run, F)
+        # the parser accepts every value tag the encoder can announce (Other{tag} carries any tag of the value range)
+        rr.r_dispatch(run, F)
+        # the encoder emits every attribute exactly once: ordered list, then exactly its complement (R-ORDERLIST), groups, end tag
+        from . import c09
+        saved0 = (run.explanation, run.trusted, run.not_decided)
+        c09.check(run, {cfg: crates}, tier)
+        run.explanation, run.trusted, run.not_decided = saved0
+        run.cfg = cfg
         from . import c08
         saved = (run.explanation, run.trusted, run.not_decided)
         c08.check(run, {cfg: crates}, tier)
